@@ -9,6 +9,6 @@ LEVEL = "proof"
 def run(ctx, out):
     dcheck.run_property(ctx, out, "C02", "mon_c02_all", n_quick=400, n_thorough=6000,
                         gen_kw=dict(ws_share=0.35, batches=0.2, malformed=0.06),
-                        directed=directed.regressions() + directed.batch_orders() + directed.reply_forms() + directed.orphan_routes() + directed.huge_timeouts() + directed.escaped_ids())
+                        directed=directed.regressions() + directed.batch_orders() + directed.reply_forms() + directed.orphan_routes() + directed.huge_timeouts() + directed.escaped_ids() + directed.requester_backpressure())
     out.assumptions += ["cJSON parse/print are outside the model; the generator's JSON values are what cJSON yields for the text sent",
                         "'answered' = handed to the connection's send function (delivery of the bytes is C10)"]
